@@ -38,6 +38,16 @@ theorem enqsOf_nil (h : HId) : enqsOf h [] = [] := rfl
 theorem upd_self (f : HId → HState) (i : HId) (v : HState) : upd f i v i = v := by simp [upd]
 theorem upd_other (f : HId → HState) (i j : HId) (v : HState) (h : j ≠ i) : upd f i v j = f j := by simp [upd, h]
 
+/-- `retry` queues `(self, self.last_destination)`: recording that destination changes nothing -/
+theorem recordDest_self (s : HState) : recordDest s s.lastDest = s := by
+  unfold recordDest
+  split
+  · cases s; rfl
+  · rfl
+
+theorem enq_hs_other (e : Engine σ) (g h : HId) (d : Option Dest) (hne : h ≠ g) : (e.enq g d).hs h = e.hs h := by
+  simp only [Engine.enq]; exact upd_other _ _ _ _ hne
+
 /-- what a dispatch-phase piece does to handler `h` under `Quiet`; `c` = a condition under which `h` is not even invoked -/
 structure QFrame (h : HId) (c : Prop) (e e' : Engine σ) (o : List Out) : Prop where
   clock_eq : e'.clock = e.clock
@@ -96,7 +106,9 @@ theorem actStep_q (P : Prog σ) (h g : HId) (ci : Prop) (inner : Inner σ)
       rw [upd_other _ _ _ _ (fun x => hc.1 x.symm)]
   | send h' d =>
     have hne : (h' == h) = false := by simpa [Act.touches] using ha
-    exact ⟨rfl, by simp [actStep, enqsOf, enqs, hne], Iff.rfl, id, Or.inl rfl, fun _ => rfl⟩
+    have hne' : h ≠ h' := by intro x; subst x; simp at hne
+    have hhs : (actStep P g inner (.send h' d) e).1.hs h = e.hs h := by simp only [actStep]; exact enq_hs_other e h' h d hne'
+    exact ⟨rfl, by simp [actStep, enqsOf, enqs, hne], Iff.rfl, fun hr => by rw [hhs]; exact hr, Or.inl (by rw [hhs]), fun _ => hhs⟩
   | create h' =>
     have hne : h ≠ h' := by
       have : (h' == h) = false := by simpa [Act.touches] using ha
@@ -123,9 +135,9 @@ theorem actStep_q (P : Prog σ) (h g : HId) (ci : Prop) (inner : Inner σ)
       refine ⟨rfl, ?_, Iff.rfl, fun hr => ?_, Or.inl ?_, fun _ => ?_⟩
       · have : (g == h) = false := by simpa using fun x : g = h => hne x.symm
         simp [enqsOf, enqs, this]
-      · simp only [Engine.enq]; rw [upd_other _ _ _ _ hne]; exact hr
-      · simp only [Engine.enq]; rw [upd_other _ _ _ _ hne]
-      · simp only [Engine.enq]; rw [upd_other _ _ _ _ hne]
+      · rw [enq_hs_other _ _ _ _ hne]; simp only; rw [upd_other _ _ _ _ hne]; exact hr
+      · rw [enq_hs_other _ _ _ _ hne]; simp only; rw [upd_other _ _ _ _ hne]
+      · rw [enq_hs_other _ _ _ _ hne]; simp only; rw [upd_other _ _ _ _ hne]
 
 theorem runActs_q (P : Prog σ) (h g : HId) (ci : Prop) (inner : Inner σ)
     (hin : ∀ f, inner = some f → ∀ e, QFrame h ci e (f e).1 (f e).2) :
@@ -287,32 +299,6 @@ theorem runPhases_dead (P : Prog σ) (env : Env) (ps : List Nat) (e : Engine σ)
   | nil => rfl
   | cons p ps => rw [runPhases]; simp [ha]
 
-theorem engineIter_unfold (P : Prog σ) (e : Engine σ) (env : Env) (ha : e.alive = true) :
-    engineIter P e env =
-      if (afterLoop P e env).1.alive = true then
-        ((loopFuncPhase P (cleanup (afterLoop P e env).1)).1,
-         (afterSend P e env).2 ++ ((afterRecv P e env).2 ++ ((afterLoop P e env).2 ++ (loopFuncPhase P (cleanup (afterLoop P e env).1)).2)))
-      else ((afterLoop P e env).1, (afterSend P e env).2 ++ ((afterRecv P e env).2 ++ (afterLoop P e env).2)) := by
-  have h0 : (afterSend P e env).1.alive = true := by rw [afterSend_alive]; exact ha
-  have h1 : (afterRecv P e env).1.alive = true := by rw [afterRecv_alive]; exact ha
-  have e0 : runPhase P env 0 { e with clock := e.clock + env.dtPre } = afterSend P e env := rfl
-  have e1 : runPhase P env 1 (afterSend P e env).1 = afterRecv P e env := by
-    unfold runPhase afterRecv
-    cases env.dgram <;> rfl
-  have e2 : runPhase P env 2 (afterRecv P e env).1 = afterLoop P e env := rfl
-  have e3 : runPhase P env 3 (afterLoop P e env).1 = (cleanup (afterLoop P e env).1, []) := rfl
-  have e4 : runPhase P env 4 (cleanup (afterLoop P e env).1) = loopFuncPhase P (cleanup (afterLoop P e env).1) := rfl
-  unfold engineIter
-  rw [if_neg (by simp [ha]), threadPhaseCodes_eq]
-  rw [runPhases_cons_alive P env 0 _ { e with clock := e.clock + env.dtPre } ha, e0, runPhases_cons_alive P env 1 _ _ h0, e1, runPhases_cons_alive P env 2 _ _ h1, e2]
-  by_cases h2 : (afterLoop P e env).1.alive = true
-  · have h3 : (cleanup (afterLoop P e env).1).alive = true := h2
-    rw [if_pos h2, runPhases_cons_alive P env 3 _ _ h2, e3, runPhases_cons_alive P env 4 _ _ h3, e4]
-    simp [runPhases]
-  · have h2' : (afterLoop P e env).1.alive = false := by simpa using h2
-    rw [if_neg h2, runPhases_dead P env _ _ h2']
-    simp
-
 /-! ### phase 2 seen from one handler whose on_retry_failed is the default -/
 
 /-- has_timedout at clock `c` for timeout `T` -/
@@ -374,6 +360,7 @@ theorem handlerLoop_self (P : Prog σ) (h : HId) (hf : (P.spec h).onFail = .remo
     by_cases hr : (e.hs h).retries = 0
     · simp [hr, hf, upd_self, enqsOf, enqs]
     · simp [hr, Engine.enq, upd_self, enqsOf, enqs]
+      exact recordDest_self _
   · have he : ¬ expired (P.spec h).timeout e.clock (e.hs h) := fun x => ht ((timedOut_iff P h e).2 x)
     have ht' : timedOut P h e = false := by simpa using ht
     simp [ht', he, enqsOf, enqs]
@@ -389,43 +376,39 @@ theorem handlerLoop_other (P : Prog σ) (h g : HId) (hne : h ≠ g) (e : Engine 
       · exact ⟨rfl, rfl⟩
       · exact ⟨upd_other _ _ _ _ hne, rfl⟩
       · exact ⟨rfl, rfl⟩
-    · exact ⟨by simp only [Engine.enq]; exact upd_other _ _ _ _ hne, by simp [enqsOf, enqs, hb]⟩
+    · exact ⟨by rw [enq_hs_other _ _ _ _ hne]; simp only; exact upd_other _ _ _ _ hne, by simp [enqsOf, enqs, hb]⟩
 
 theorem handlerLoop_misc (P : Prog σ) (g : HId) (e : Engine σ) :
     (handlerLoop P g e).1.clock = e.clock ∧ (handlerLoop P g e).1.handlers = e.handlers ∧ (handlerLoop P g e).1.alive = e.alive ∧
-    ((P.spec g).onFail ≠ .raises → (handlerLoop P g e).2.2 = false) := by
+    (handlerLoop P g e).2.2 = false := by
   unfold handlerLoop
   split
-  · exact ⟨rfl, rfl, rfl, fun _ => rfl⟩
+  · exact ⟨rfl, rfl, rfl, rfl⟩
   · split
     · split
-      · exact ⟨rfl, rfl, rfl, fun _ => rfl⟩
-      · exact ⟨rfl, rfl, rfl, fun _ => rfl⟩
-      · rename_i hx; exact ⟨rfl, rfl, rfl, fun hn => absurd hx hn⟩
-    · exact ⟨rfl, rfl, rfl, fun _ => rfl⟩
+      · exact ⟨rfl, rfl, rfl, rfl⟩
+      · exact ⟨rfl, rfl, rfl, rfl⟩
+      · exact ⟨rfl, rfl, rfl, by simp [loopPhaseGuarded_eq]⟩
+    · exact ⟨rfl, rfl, rfl, rfl⟩
 
-/-- no on_retry_failed callback raises -/
-def NoRaise (P : Prog σ) : Prop := ∀ g, (P.spec g).onFail ≠ .raises
-
-theorem loopAll_misc (P : Prog σ) (hnr : NoRaise P) : ∀ (l : List HId) (e : Engine σ),
+/-- the loop phase never stops the engine: each `handler.loop` call is guarded (source fact `loopPhaseGuarded`) -/
+theorem loopAll_misc (P : Prog σ) : ∀ (l : List HId) (e : Engine σ),
     (loopAll P l e).1.clock = e.clock ∧ (loopAll P l e).1.handlers = e.handlers ∧ (loopAll P l e).1.alive = e.alive
   | [], e => ⟨rfl, rfl, rfl⟩
   | g :: rest, e => by
     obtain ⟨hc, hh, ha, hd⟩ := handlerLoop_misc P g e
-    have hd' := hd (hnr g)
     unfold loopAll
-    simp only [hd', Bool.false_eq_true, if_false]
-    obtain ⟨c2, h2, a2⟩ := loopAll_misc P hnr rest (handlerLoop P g e).1
+    simp only [hd, Bool.false_eq_true, if_false]
+    obtain ⟨c2, h2, a2⟩ := loopAll_misc P rest (handlerLoop P g e).1
     exact ⟨by rw [c2, hc], by rw [h2, hh], by rw [a2, ha]⟩
 
-theorem loopAll_h (P : Prog σ) (h : HId) (hf : (P.spec h).onFail = .remove) (hnr : NoRaise P) : ∀ (l : List HId) (e : Engine σ),
+theorem loopAll_h (P : Prog σ) (h : HId) (hf : (P.spec h).onFail = .remove) : ∀ (l : List HId) (e : Engine σ),
     (loopAll P l e).1.hs h = (if h ∈ l then tick (P.spec h).timeout e.clock (e.hs h) else e.hs h) ∧
     enqsOf h (loopAll P l e).2 = (if h ∈ l then tickEnq h (P.spec h).timeout e.clock (e.hs h) else [])
   | [], e => by simp [loopAll, enqsOf, enqs]
   | g :: rest, e => by
-    obtain ⟨hc, _, _, hd⟩ := handlerLoop_misc P g e
-    have hd' := hd (hnr g)
-    have ih := loopAll_h P h hf hnr rest (handlerLoop P g e).1
+    obtain ⟨hc, _, _, hd'⟩ := handlerLoop_misc P g e
+    have ih := loopAll_h P h hf rest (handlerLoop P g e).1
     unfold loopAll
     simp only [hd', Bool.false_eq_true, if_false]
     rw [enqsOf_append, ih.1, ih.2, hc]
@@ -469,5 +452,35 @@ theorem processSend_h (P : Prog σ) (h : HId) (e : Engine σ) :
           by_cases hg : h = g
           · subst hg; right; exact ⟨d, by simp, by rw [upd_self]⟩
           · left; exact upd_other _ _ _ _ hg
+
+/-! ### the whole iteration, unfolded -/
+
+theorem afterLoop_alive (P : Prog σ) (e : Engine σ) (env : Env) : (afterLoop P e env).1.alive = e.alive := by
+  unfold afterLoop; rw [(loopAll_misc P _ _).2.2, afterRecv_alive]
+
+theorem loopFuncPhase_alive (P : Prog σ) (e : Engine σ) : (loopFuncPhase P e).1.alive = e.alive := by
+  unfold loopFuncPhase
+  simp [loopFuncGuarded_eq]
+
+theorem engineIter_unfold (P : Prog σ) (e : Engine σ) (env : Env) (ha : e.alive = true) :
+    engineIter P e env =
+      ((loopFuncPhase P (cleanup (afterLoop P e env).1)).1,
+       (afterSend P e env).2 ++ ((afterRecv P e env).2 ++ ((afterLoop P e env).2 ++ (loopFuncPhase P (cleanup (afterLoop P e env).1)).2))) := by
+  have h0 : (afterSend P e env).1.alive = true := by rw [afterSend_alive]; exact ha
+  have h1 : (afterRecv P e env).1.alive = true := by rw [afterRecv_alive]; exact ha
+  have h2 : (afterLoop P e env).1.alive = true := by rw [afterLoop_alive]; exact ha
+  have e0 : runPhase P env 0 { e with clock := e.clock + env.dtPre } = afterSend P e env := rfl
+  have e1 : runPhase P env 1 (afterSend P e env).1 = afterRecv P e env := by
+    unfold runPhase afterRecv
+    cases env.dgram <;> rfl
+  have e2 : runPhase P env 2 (afterRecv P e env).1 = afterLoop P e env := rfl
+  have e3 : runPhase P env 3 (afterLoop P e env).1 = (cleanup (afterLoop P e env).1, []) := rfl
+  have e4 : runPhase P env 4 (cleanup (afterLoop P e env).1) = loopFuncPhase P (cleanup (afterLoop P e env).1) := rfl
+  have h3 : (cleanup (afterLoop P e env).1).alive = true := h2
+  unfold engineIter
+  rw [if_neg (by simp [ha]), threadPhaseCodes_eq]
+  rw [runPhases_cons_alive P env 0 _ { e with clock := e.clock + env.dtPre } ha, e0, runPhases_cons_alive P env 1 _ _ h0, e1,
+      runPhases_cons_alive P env 2 _ _ h1, e2, runPhases_cons_alive P env 3 _ _ h2, e3, runPhases_cons_alive P env 4 _ _ h3, e4]
+  simp [runPhases]
 
 end GeckoModel.Threaded
